@@ -94,6 +94,11 @@ def check_case(ctx, case):
     ctx.sample(case)
 
 
+# no clause depends on the map backend: a tenth of the eligible cases (integer labels, no linked edges) runs on SqliteMap
+_bk_gen, _bk_chk = build.backend_dimension(0.12)
+gen_case = _bk_gen(gen_case)
+check_case = _bk_chk(check_case)
+
 TECHNIQUE = "runtime monitoring: invariant-at-a-hook, the whole live lattice is walked after every public call of generated operation histories"
 LEVEL_TEXT = ("{Q} (quick) / {T} (thorough) generated operation histories on real matchers; after each of the ~4 operations per history every "
               "lattice entry is checked for filing, predecessor identity and layer, monotone probability, length bookkeeping, probability range and "
